@@ -898,6 +898,11 @@ func c05Observe(p *prog, l *model.Node) {
 		var v model.Val
 		if n > 0 && r.Chance(2, 3) {
 			v = l.E[r.Intn(n)]
+			if v.Ref != nil && v.Ref.Real != nil && r.Chance(1, 2) {
+				// an equal but distinct container: containers are held by reference, so it is not "contained"
+				v = model.Ref(p.h.FromSpec(v.Ref.ToSpec()))
+				p.c.Count("lookups_of_equal_but_distinct_containers")
+			}
 		} else {
 			v = p.anyVal(nil, 3)
 		}
